@@ -154,7 +154,22 @@ class C44(core.Check):
                         ops.append(['get', list(rand_str(rng, NAME_POOL, list(b'ZQzq=\x00\xe9 1')))])
                     else:
                         ops.append(['idx', rng.choice([0, 1, 2, 3, 255, 256, -1, 7])])
-                out.append({'k': 'env', 'ops': ops})
+                case = {'k': 'env', 'ops': ops}
+                if rng.random() < 0.35:
+                    # host variables with lower- or mixed-case names exist before the session (seed C44f): ENVIRON$ by name never
+                    # sees them (names are upper-cased), ENVIRON$(n) lists them; their names are then also used by the program
+                    init = []
+                    for _ in range(rng.randrange(1, 3)):
+                        nm = rng.choice([b'c44_probe', b'Mixed', b'path', b'zq', b'Zq', b'http_proxy', b'a'])
+                        if nm not in [bytes(x[0]) for x in init]:
+                            init.append([list(nm), list(rng.choice([b'from-host', b'h', b'']))])
+                    case['init'] = init
+                    for nm, _v in init:
+                        pos = rng.randrange(len(ops) + 1)
+                        ops.insert(pos, ['get', nm])
+                        ops.insert(pos, ['set', nm + list(b'=from-basic')])
+                        ops.append(['get', [x - 32 if 97 <= x <= 122 else x for x in nm]])
+                out.append(case)
                 hist['env'] += 1
         self.histogram = hist
         return out
@@ -202,6 +217,8 @@ class C44(core.Check):
         out = []
         try:
             os.environ.clear()
+            for nm, v in case.get('init', []):
+                os.environ[bytes(nm).decode('ascii')] = bytes(v).decode('ascii')
             env = impl.environment
             for op in case['ops']:
                 try:
@@ -240,7 +257,8 @@ class C44(core.Check):
                 steps.append('(inr (inl %s))' % core.zl(op[1]))
             else:
                 steps.append('(inr (inr %s))' % ('(%d)' % op[1] if op[1] < 0 else '%d' % op[1]))
-        return '(env_run [] [%s])' % '; '.join(steps)
+        init = '; '.join('(%s, %s)' % (core.zl(nm), core.zl(v)) for nm, v in case.get('init', []))
+        return '(env_run [%s] [%s])' % (init, '; '.join(steps))
 
     MODEL_PRELUDE = None
 
